@@ -85,40 +85,81 @@ def check_varint_reader(atom) -> list[str]:
     return problems
 
 
+def _bounds(conds, v, V):
+    """(lo, hi) of the value implied by a path's decided conditions (range comparisons with constants and
+    zero tests of shifted copies of the value)."""
+    lo, hi = 0, (1 << 70) - 1
+    env = {v: V}
+    for term, pol in conds:
+        h = term[0]
+        if h == "nonzero" or (h == "eq" and term[2] == ("k", 0)):
+            q = bv_eval(term[1], env)
+            nz = pol if h == "nonzero" else not pol
+            if q is None:
+                return None
+            if q.known_zero():
+                continue
+            b0 = q.bits[0] if q.bits else None
+            if b0 is None or len(b0[1]) != 1 or any(q.bits[i] != V.bit(next(iter(b0[1]))[1] + i) for i in range(len(q.bits))):
+                return None
+            p = next(iter(b0[1]))[1]
+            if nz:
+                lo = max(lo, 1 << p)
+            else:
+                hi = min(hi, (1 << p) - 1)
+        elif h in ("lt", "le", "gt", "ge") and len(term) == 3:
+            a, b = term[1], term[2]
+            if a == v and b[0] == "k":
+                c, op = b[1], h
+            elif b == v and a[0] == "k":
+                c, op = a[1], {"lt": "gt", "le": "ge", "gt": "lt", "ge": "le"}[h]
+            else:
+                return None
+            if not pol:
+                op = {"lt": "ge", "le": "gt", "gt": "le", "ge": "lt"}[op]
+            if op == "lt":
+                hi = min(hi, c - 1)
+            elif op == "le":
+                hi = min(hi, c)
+            elif op == "gt":
+                lo = max(lo, c + 1)
+            else:
+                lo = max(lo, c)
+        else:
+            return None
+    return lo, hi
+
+
 def check_varint_writer(atom) -> list[str]:
-    """k-th path emits k bytes: 7-bit groups little-endian, continuation bit on all but the last;
-    taken iff value >> 7(k-1) != 0 and value >> 7k == 0 (minimal length)."""
+    """Every path of the writer must emit the canonical (minimal) LEB128 bytes for every value that takes it.
+    A k-byte path taken for values in [lo, hi] is canonical iff 2**(7(k-1)) <= lo (k > 1), hi < 2**(7k), and
+    byte i carries bits 7i..7i+6 with the continuation bit set on all but the last byte."""
     problems = []
     v = atom["value_term"]
     V = BV.atom(v, 70, False)
-    env = {v: V}
-    for k, p in enumerate(atom["paths"], start=1):
+    for p in atom["paths"]:
         bs = p["bytes"]
-        if len(bs) != k:
-            problems.append(f"path {k} writes {len(bs)} bytes")
+        k = len(bs)
+        bd = _bounds(p["conds"], v, V)
+        if bd is None:
+            problems.append(f"{k}-byte path: path condition not understood: {[c for c, _ in p['conds']][:3]!r}")
             continue
+        lo, hi = bd
+        if lo > hi:
+            continue  # infeasible
+        if hi >= 1 << (7 * k):
+            problems.append(f"the {k}-byte path is taken for values up to {min(hi, (1 << 70) - 1)}, but {1 << (7 * k)} and above need {k + 1} "
+                            f"bytes: for {1 << (7 * k)} the last byte is written with its continuation bit set (or bits are dropped)")
+        if k > 1 and lo < 1 << (7 * (k - 1)):
+            problems.append(f"the {k}-byte path is taken for values down to {lo}, which fit in fewer bytes (non-minimal encoding)")
+        known_zero = {(v, i): BV.ZERO for i in range(max(hi, 0).bit_length(), 71)}
         for i, b in enumerate(bs):
-            want = BV([V.bit(7 * i + j) for j in range(7)] + [BV.ONE if i < k - 1 else BV.ZERO], BV.ZERO)
-            if b is None or b != want:
-                problems.append(f"{k}-byte path: byte {i} is {b.show() if b is not None else None}, expected bits {7 * i}..{7 * i + 6} "
-                                f"of the value and continuation bit {'set' if i < k - 1 else 'clear'}")
-        # path condition: loop continued k-1 times, then stopped
-        conds = p["conds"]
-        shifts = []
-        for term, pol in conds:
-            if term[0] == "nonzero":
-                q = bv_eval(term[1], env)
-            elif term[0] == "eq" and term[2] == ("k", 0):
-                q, pol = bv_eval(term[1], env), not pol
-            else:
-                q = None
-            if q is None:
-                problems.append(f"{k}-byte path: loop test {term!r} not understood")
-                continue
-            shifts.append((q, pol))
-        want_conds = [(V >> (7 * j), True) for j in range(1, k)] + ([(V >> (7 * k), False)] if 7 * k < 70 else [])
-        if [(q.key(), pol) for q, pol in shifts] != [(q.key(), pol) for q, pol in want_conds]:
-            problems.append(f"{k}-byte path is not taken exactly when the value needs {k} groups of 7 bits (non-minimal or wrong loop test)")
+            want = BV([V.bit(7 * i + j) for j in range(7)] + [BV.ONE if i < k - 1 else BV.ZERO], BV.ZERO).subst(known_zero)
+            got = b.subst(known_zero) if b is not None else None
+            if got is None or got != want:
+                if hi < 1 << (7 * k):
+                    problems.append(f"{k}-byte path: byte {i} is {got.show() if got is not None else None}, expected bits {7 * i}..{7 * i + 6} "
+                                    f"of the value and continuation bit {'set' if i < k - 1 else 'clear'}")
     return problems
 
 
@@ -128,19 +169,26 @@ def check_roundtrip(reader_atom, writer_atom) -> list[str]:
     problems = []
     v = writer_atom["value_term"]
     V = BV.atom(v, 70, False)
-    n = min(reader_atom["max_bytes"], len(writer_atom["paths"]))
-    for k in range(1, n + 1):
-        rp, wp = reader_atom["paths"][k - 1], writer_atom["paths"][k - 1]
+    for wp in writer_atom["paths"]:
+        k = len(wp["bytes"])
+        if k > reader_atom["max_bytes"]:
+            continue
+        bd = _bounds(wp["conds"], v, V)
+        if bd is not None and bd[0] > bd[1]:
+            continue
+        rp = reader_atom["paths"][k - 1]
+        zero = {(v, i): BV.ZERO for i in range(max(bd[1], 0).bit_length() if bd else 71, 71)}
         mapping = {}
         for i, w in enumerate(rp["wires"]):
             b = wp["bytes"][i]
             if b is None:
                 problems.append(f"{k}-byte path: writer byte {i} not expressible")
                 return problems
+            b = b.subst(zero)
             for j in range(8):
                 mapping[(("byte", w, 0), j)] = b.bit(j)
         got = rp["bv"].subst(mapping) if rp["bv"] is not None else None
-        want = BV([V.bit(i) for i in range(7 * k)], BV.ZERO)  # bits >= 7k are zero on this writer path
+        want = BV([V.bit(i) for i in range(7 * k)], BV.ZERO).subst(zero)  # bits >= 7k are zero on this writer path
         if got is None or got != want:
             problems.append(f"{k}-byte encodings do not read back: reader yields {got.show() if got is not None else None}")
     return problems
